@@ -462,6 +462,37 @@ func factsClientCfg() {
 		})
 	}
 	emit(g, "dialerKeepAliveArg", "String", leanStr(found), "cmd/ck-client: net.Dialer{KeepAlive: ...}")
+	// ---- cmd/ck-client: an invalid LocalHost/LocalPort is an error in UDP mode as it is in TCP mode: the error of
+	// net.ResolveUDPAddr is not dropped (ListenUDP(nil) listens on a random port of every interface) ----
+	resolveCalls, dropped, checked := 0, 0, 0
+	for _, f := range pkgs["cmd/ck-client"].files {
+		ast.Inspect(f, func(n ast.Node) bool {
+			blk, ok := n.(*ast.BlockStmt)
+			if !ok {
+				return true
+			}
+			for i, st := range blk.List {
+				a, ok := st.(*ast.AssignStmt)
+				if !ok || len(a.Rhs) != 1 || !strings.HasPrefix(show(a.Rhs[0]), "net.ResolveUDPAddr(") || len(a.Lhs) != 2 {
+					continue
+				}
+				resolveCalls++
+				if show(a.Lhs[1]) == "_" {
+					dropped++
+					continue
+				}
+				if i+1 < len(blk.List) {
+					if is, ok := blk.List[i+1].(*ast.IfStmt); ok && show(is.Cond) == show(a.Lhs[1])+" != nil" && len(is.Body.List) >= 1 {
+						if _, isRet := is.Body.List[len(is.Body.List)-1].(*ast.ReturnStmt); isRet || strings.Contains(show(is.Body), "log.Fatal") {
+							checked++
+						}
+					}
+				}
+			}
+			return true
+		})
+	}
+	boolFact(g, "udpLocalAddrErrorChecked", resolveCalls >= 1 && dropped == 0 && checked == resolveCalls, "cmd/ck-client: the error of every net.ResolveUDPAddr(localConfig.LocalAddr) is tested and ends the bind")
 }
 
 func fParseTarget(g string) {
